@@ -223,7 +223,7 @@ func fieldName(t types.Type, idx int) string {
 	}
 	n := st.Field(idx).Name()
 	if len(canonFields) > 0 {
-		if m := canonFields[relTypeString(t)]; m != nil {
+		if m := canonFields[structKey(relTypeString(t))]; m != nil {
 			if old, ok := m[n]; ok {
 				return old
 			}
